@@ -86,3 +86,36 @@ package txtar
 //@ func Parse
 //@   names (a)
 //@   ensures a != nil
+
+// C15: Write creates files only at or below dir, never overwrites, reports an
+// error for names that are absolute or climb out, and on success every file
+// holds its entry's data. (fs model and path algebra: /verif/specs/fs.spec)
+//@ property C15: Write, isAbs
+//
+// the path Write creates for an entry name
+//@ pure func targetP(dir string, name string) string = joinP(dir, cleanP(name))
+//@ pure func badName(name string) bool = isAbsP(cleanP(name)) || climbsP(cleanP(name))
+
+//@ func isAbs
+//@   pure
+//@   ensures result == isAbsP(p)
+
+//@ func Write
+//@   names (err)
+//@   requires a != nil
+//@   use joinBelow, catEmpty
+//@   modifies fsExists, fsData, fdPath, alloc
+//@   at call os.OpenFile#1: requires flag & 192 == 192 && belowId(dir, sid(name))
+//@   at call os.MkdirAll#1: requires sameStr(path, dirP(fp))
+//@   at call (*os.File).Write#1: requires sameSlice(b, f.Data)
+//@   loop 1: invariant -1 <= rangeindex && rangeindex < len(a.Files)
+//@   loop 1: invariant forall p int {fsExists[p]} :: old(fsExists)[p] ==> fsExists[p]
+//@   loop 1: invariant forall p int {fsData[p]} :: old(fsExists)[p] ==> fsData[p] == old(fsData)[p]
+//@   loop 1: invariant forall p int {fsExists[p]} :: fsExists[p] && !old(fsExists)[p] ==> belowId(dir, p)
+//@   loop 1: invariant forall K {at(a.Files,K)} :: lo(a.Files) <= K && K <= lo(a.Files) + rangeindex ==> !badName(at(a.Files,K).Name)
+//@   loop 1: invariant forall K {at(a.Files,K)} :: lo(a.Files) <= K && K <= lo(a.Files) + rangeindex ==> fsExists[targetP(dir, at(a.Files,K).Name)] && !old(fsExists)[targetP(dir, at(a.Files,K).Name)] && fsData[targetP(dir, at(a.Files,K).Name)] == sid(at(a.Files,K).Data)
+//@   loop 1: decreases len(a.Files) - rangeindex
+//@   ensures forall p int {fsExists[p]} :: fsExists[p] && !old(fsExists)[p] ==> belowId(dir, p)
+//@   ensures forall p int {fsExists[p]} :: old(fsExists)[p] ==> fsExists[p] && fsData[p] == old(fsData)[p]
+//@   ensures err == nil ==> forall K {at(a.Files,K)} :: lo(a.Files) <= K && K < hi(a.Files) ==> !badName(at(a.Files,K).Name)
+//@   ensures err == nil ==> forall K {at(a.Files,K)} :: lo(a.Files) <= K && K < hi(a.Files) ==> fsData[targetP(dir, at(a.Files,K).Name)] == sid(at(a.Files,K).Data)
